@@ -12,6 +12,7 @@ import numpy as np
 
 from vp.core import fd
 from vp.core.alphabet import weyl
+import cardillo.math.prox  # noqa: F401,E402  (imported before any case timer is armed)
 
 ID = "C27"
 LEVEL = "model_checking"
@@ -31,6 +32,9 @@ ASSUMPTIONS = [
     "Jacobian oracle: 5-point stencils with steps 1e-3*max(|rho x - y|, radius) (scaled by 1/rho for x), active set "
     "recomputed at every stencil point; points within 5% (relative) of the active-set boundary, and z = 0 with r > 0 "
     "(kink of max(0, r z)) are outside the alphabet",
+    "the implicit residual evaluated with its own active set must be finite at every letter, boundary included "
+    "(|rho x - y| = radius = 0 has to be classified as stick)",
+    "quick and thorough tier enumerate the same space (the whole check costs < 2 CPU-minutes)",
     "estimate_prox_parameter: documented formula alpha / diag(W^T M^-1 W) evaluated densely is the reference",
 ]
 MIN_NONTRIVIAL = 60
@@ -247,6 +251,12 @@ def _check_jacobian(case):
     for x, y in itertools.product(xs, ys):
         a = float(np.linalg.norm(rho * x - y))
         m = max(a, R)
+        # the implicit residual is defined at every letter, also on the boundary (a = R = 0 must be 'stick',
+        # the slip branch divides by |rho x - y|)
+        evals += 1
+        if not np.all(np.isfinite(F(x, y, zv))):
+            fails.setdefault("finite", {"site": "Sphere.residual finite with its own active set", "msg": "non-finite residual",
+                                        "data": {"x": x, "y": y, "z": z, "rho": rho, "r": r, "a": a, "radius": R}})
         if abs(a - R) <= 0.05 * m:
             stats["n_near_boundary_excluded"] += 1
             continue
